@@ -19,7 +19,7 @@ func TestC06(t *testing.T) {
 		n = 4
 	}
 	key := func(v any) string { b, _ := json.Marshal(v); return fmt.Sprintf("%T:%s", v, b) }
-	r := &result{Property: "C06", Name: "distinct-first-occurrence-and-union", Bound: fmt.Sprintf("all tables of 0..%d single-column rows over %v; unions of every pair of such tables with <= 2 rows, chains of 3", n, vals)}
+	r := &result{Property: "C06", Name: "distinct-first-occurrence-and-union", Bound: fmt.Sprintf("all tables of 0..%d single-column rows over %v, each also with LIMIT/OFFSET windows (1,1), (2,1), (1,2) over the distinct rows; unions of every pair of such tables with <= 2 rows, chains of 3", n, vals)}
 	var tables [][]any
 	var gen func(prefix []any, k int)
 	gen = func(prefix []any, k int) {
@@ -83,6 +83,21 @@ func TestC06(t *testing.T) {
 		want := dedup(tbl)
 		if err != nil || fmt.Sprint(got) != fmt.Sprint(want) {
 			r.violate("DISTINCT over %v: got %v (%v), want %v", tbl, got, err, want)
+		}
+		// a window applies to the de-duplicated rows
+		for _, w := range [][2]int{{1, 1}, {2, 1}, {1, 2}} {
+			r.Cases++
+			got, err := run(map[string]any{"t": mk(tbl)}, fmt.Sprintf("SELECT DISTINCT a FROM t LIMIT %d OFFSET %d", w[0], w[1]))
+			lo, hi := w[1], w[1]+w[0]
+			if lo > len(want) {
+				lo = len(want)
+			}
+			if hi > len(want) {
+				hi = len(want)
+			}
+			if err != nil || fmt.Sprint(got) != fmt.Sprint(want[lo:hi]) {
+				r.violateClass("distinct-window", "DISTINCT over %v LIMIT %d OFFSET %d: got %v (%v), want %v", tbl, w[0], w[1], got, err, want[lo:hi])
+			}
 		}
 	}
 	var small [][]any
